@@ -5,7 +5,8 @@
 (*          plus every single separator / zone perturbation of base dates;   *)
 (*  "rt"  : boundary civil times in years 1..9999 with their canonical text   *)
 (*          (for AppendHTTPDate and the round trip);                          *)
-(*  "v4"  : 3, 4 and 5 dot-separated fields from the IPv4 field classes;      *)
+(*  "v4"  : 3, 4 and 5 dot-separated fields from the IPv4 field classes, and    *)
+(*          four fields value x zero-padding with independent widths;         *)
 (*  "v6"  : IPv6 literals by group structure: 1..NP pieces, each empty or a   *)
 (*          hex group, with one piece optionally replaced by a special one    *)
 (*          (5 hex digits, non-hex, IPv4 tails good and bad).                 *)
@@ -43,7 +44,10 @@ RtInputs == { x \in [k : {"rt"}, y : RtYears, mo : 1..12, d : {1, 28, 29, 30, 31
 
 V4Core == IF QUICK THEN Pick(V4FieldAll, {"", "0", "00", "007", "25", "255", "256", "999999999999", "1a", " 1"}) ELSE V4FieldAll
 V4Few == Pick(V4FieldAll, {"", "1", "255", "256"})
-V4Inputs == [k : {"v4"}, fs : [1..4 -> V4Core] \cup [1..3 -> V4Few] \cup [1..5 -> V4Few] \cup [1..1 -> V4Few]]
+\* four fields with independent amounts of zero padding (0 .. 9 zeros: totals far beyond 15 bytes)
+V4Pad == IF QUICK THEN V4PaddedFields({"0", "9", "255", "256"}, {0, 2, 5})
+         ELSE V4PaddedFields({"0", "1", "25", "255", "256", "300"}, {0, 1, 4, 9})
+V4Inputs == [k : {"v4"}, fs : [1..4 -> V4Core] \cup [1..4 -> V4Pad] \cup [1..3 -> V4Few] \cup [1..5 -> V4Few] \cup [1..1 -> V4Few]]
 
 PE == P6("", "e")
 PH == P6("1", "h")
